@@ -62,8 +62,33 @@ func genData(t *rt.Tape, label string) []byte {
 	return t.Sub(label + ".bytes").Bytes(n)
 }
 
+// c12Earlier remembers digests reported earlier in the run: a reported digest
+// must stay what it was when later bytes pass through.
+type c12Earlier struct {
+	sum  []byte
+	want []byte
+	alg  string
+	at   int
+}
+
+var c12Kept []c12Earlier
+
 func checkHashers(r *rt.Run, where string, algs []string, hs []*hashio.Hasher, sofar []byte) {
+	for _, e := range c12Kept {
+		if !bytes.Equal(e.sum, e.want) {
+			r.Violate("C12/reported-digest-changed-later", where+"/"+e.alg, "the %s digest reported after %d bytes was %x; after more bytes passed through the same slice reads %x", e.alg, e.at, e.want, e.sum)
+			c12Kept = nil
+			break
+		}
+	}
+	if len(c12Kept) > 64 {
+		c12Kept = c12Kept[:0]
+	}
 	for i, h := range hs {
+		if len(sofar) < 2000 {
+			s := h.Sum(nil)
+			c12Kept = append(c12Kept, c12Earlier{sum: s, want: append([]byte(nil), trueDigest(algs[i], sofar)...), alg: algs[i], at: len(sofar)})
+		}
 		if h.Name() != algs[i] {
 			r.Violate("C12/hasher-name", where, "hasher %d is %q want %q", i, h.Name(), algs[i])
 		}
@@ -78,6 +103,7 @@ func checkHashers(r *rt.Run, where string, algs []string, hs []*hashio.Hasher, s
 
 func c12Stream(r *rt.Run) {
 	t := r.T
+	c12Kept = nil
 	data := genData(t, "c12.data")
 	multi := t.Bool(1, 2, "c12.multi")
 	var algs []string
@@ -323,6 +349,7 @@ func verifyEntry(r *rt.Run, via string, fh control.FileHash, e c12Entry) {
 		r.Violate("C12/entry-algorithm", via, "entry of field %s carries algorithm %q (would reach log.Fatalf in Verifier)", e.Field, fh.Algorithm)
 		return
 	}
+	algTag := fh.Algorithm
 	v, err := fh.Verifier()
 	accepted := false
 	if err == nil {
@@ -338,6 +365,9 @@ func verifyEntry(r *rt.Run, via string, fh control.FileHash, e c12Entry) {
 			}
 			pos += n
 		}
+		// the caller re-uses its entry variable before Close (as a loop over
+		// entries does): the verifier must keep judging by the entry it was made from
+		fh.Hash, fh.Algorithm, fh.Filename = strings.Repeat("0", len(fh.Hash)), "sha256", "something-else"
 		accepted = werr == nil && v.Close() == nil
 	} else if e.HexOK {
 		r.Violate("C12/verifier-constructor-error", via+"/"+e.Kind, "Verifier() failed for a hex hash: %v", err)
@@ -349,7 +379,7 @@ func verifyEntry(r *rt.Run, via string, fh control.FileHash, e c12Entry) {
 		if e.Accept {
 			cls = "C12/verifier-rejects-true-stream"
 		}
-		r.Violate(cls, via+"/"+e.Field+"/"+e.Kind, "entry of field %s (algorithm tag %q), recorded hash kind %q: verifier accepted=%v, want %v", e.Field, fh.Algorithm, e.Kind, accepted, e.Accept)
+		r.Violate(cls, via+"/"+e.Field+"/"+e.Kind, "entry of field %s (algorithm tag %q), recorded hash kind %q: verifier accepted=%v, want %v", e.Field, algTag, e.Kind, accepted, e.Accept)
 	}
 }
 
